@@ -66,3 +66,9 @@ pub proof fn lemma_sorted_partition(v: Seq<(QualifierKey, SmallString)>, t: Seq<
 }
 
 
+
+/// documented panic: indexing a qualifier that is absent
+#[verifier::external_body]
+pub fn x_panic_absent() -> !
+    requires false
+{ panic!() }
